@@ -41,6 +41,17 @@ SHADOWABLE = [("clock", {"o": "native"}), ("Range", cls("Range")), ("HashMap", c
               ("AttributeError", cls("AttributeError"))]
 
 
+# built-in string builders that fail after part of the result has been assembled: (expression, error class, message)
+HALFSTR = [('String.from_code_points([72, 105, nil])', "TypeError", "Expected a number but found 'nil'."),
+           ('String.from_code_points([128578, 1114112])', "ValueError", "Expected a valid Unicode code point but found '1114112'."),
+           ('String.from_utf8([72, 105, 300])', "ValueError", "Expected a positive integer less than 256 but found '300'."),
+           ('String.from_utf8([72, 105, 255])', "ValueError", "Invalid Unicode encountered at byte 255 with index 2."),
+           ('String.from_ascii([72, 105, "x"])', "TypeError", "Expected a number but found 'x'."),
+           ('"Hi" + "there" + nil', "TypeError", "Binary operands must be two numbers or two strings."),
+           ('"Hi,there".replace(",", nil)', "TypeError", "Expected a string but found 'nil'."),
+           ('"H${1}i${nil.missing}there"', "AttributeError", "Undefined property 'missing'.")]
+
+
 SMREG = "var hooks = [];\n"
 
 
@@ -158,6 +169,10 @@ class Gen:
                 out.append(["throwbig", k, self.id()])
             elif kind == "showbig":
                 out.append(["showbig", k, self.id()])
+            elif kind == "halfstr":
+                out.append(["halfstr", r.below(len(HALFSTR)), r.below(3), self.id()])
+            elif kind == "strbuild":
+                out.append(["strbuild", self.id(), r.below(10)])
             elif kind == "setrange":
                 out.append(["setrange", k])
             elif kind == "cmprange":
@@ -167,7 +182,7 @@ class Gen:
 
 KINDS_W = [("set", 10), ("inc", 10), ("assign", 6), ("chk", 12), ("probe", 10), ("call", 12), ("tryfin", 8), ("trycatch", 6),
            ("fiber", 6), ("fiber2", 4), ("method", 5), ("classcrash", 3), ("deffn", 5), ("callfn", 7), ("defclass", 4),
-           ("useclass", 5), ("deffiber", 4), ("resume", 7), ("import", 6), ("modcall", 6), ("throw", 5), ("poke", 3), ("corelib", 6), ("shadow", 4), ("useshadow", 6), ("capcrash", 5), ("callcap", 7), ("callhook", 7), ("setrange", 3), ("cmprange", 5), ("manyranges", 2), ("overflow", 3), ("throwbig", 3), ("showbig", 5), ("alias", 3), ("usealias", 5), ("capcrash2", 4), ("callcap2", 6), ("deepchain", 2), ("probechain", 4)]
+           ("useclass", 5), ("deffiber", 4), ("resume", 7), ("import", 6), ("modcall", 6), ("throw", 5), ("poke", 3), ("corelib", 6), ("shadow", 4), ("useshadow", 6), ("capcrash", 5), ("callcap", 7), ("callhook", 7), ("setrange", 3), ("cmprange", 5), ("manyranges", 2), ("overflow", 3), ("throwbig", 3), ("showbig", 5), ("alias", 3), ("usealias", 5), ("capcrash2", 4), ("callcap2", 6), ("deepchain", 2), ("probechain", 4), ("halfstr", 4), ("strbuild", 6)]
 
 
 def gen_session(seed):
@@ -347,6 +362,16 @@ def render_snip(stmts, uid, stale=()):
                        "print((\"ev\", %d, \"start\")); nest%s(70);" % (st[1], u, st[2], u, st[1], st[2], u))
         elif k == "probechain":
             out.append('{ var done = 0; for f in ch%d { if f.has_finished() { done = done + 1; } } print(("ev", %d, ch%d.len(), done)); }' % (st[1], st[2], st[1]))
+        elif k == "halfstr":
+            # a string builder fails half-way; caught (mode 0, 1) or ending the run (mode 2)
+            if st[2] == 2:
+                out.append('print(("ev", %d, "before")); %s;' % (st[3], HALFSTR[st[1]][0]))
+            else:
+                out.append('try { print(("ev", %d, %s)); } catch e { print(("ev", %d, type(e), e.context)); }' % (st[3], HALFSTR[st[1]][0], st[3]))
+        elif k == "strbuild":
+            # strings built in every way the interpreter has; whatever an earlier failed builder left behind must not show
+            out.append('print(("ev", %d, "n = ${%d}", String.from(%d), "a" + "b${%d}", String.from_code_points([%d, 66]), "x${"y${%d}"}z", String.from_ascii([%d]), "%d,%d".replace(",", "-")));' % (
+                st[1], st[2], st[2], st[2], 67 + st[2], st[2], 70 + st[2], st[2], st[2]))
         elif k == "throwbig":
             # a long container kept in a global is thrown and nobody catches it (the run's final report prints it)
             out.append("var big%d = [%s]; print((\"ev\", %d, big%d.len())); throw big%d;" % (st[1], ", ".join(str(1000 + j + st[1]) for j in range(90)), st[2], st[1], st[1]))
@@ -701,6 +726,17 @@ def model(ir, faults):
                         probes.inc("crash_at:nameerror_top")
                         raise Crash("NameError")
                     ev.append([num(stt[2]), num(70), num(70)])
+                elif k == "halfstr":
+                    _, ecls, emsg = HALFSTR[stt[1]]
+                    probes.inc("string_builder_failed_half_way")
+                    if stt[2] == 2:
+                        ev.append([num(stt[3]), s("before")])
+                        probes.inc("crash_at:string_builder_half_way")
+                        raise Crash(emsg)
+                    ev.append([num(stt[3]), cls(ecls), s(emsg)])
+                elif k == "strbuild":
+                    n_ = stt[2]
+                    ev.append([num(stt[1]), s("n = %d" % n_), s("%d" % n_), s("ab%d" % n_), s(chr(67 + n_) + "B"), s("xy%dz" % n_), s(chr(70 + n_)), s("%d-%d" % (n_, n_))])
                 elif k == "throwbig":
                     st["bigs"].add(stt[1])
                     ev.append([num(stt[2]), num(90)])
